@@ -41,8 +41,18 @@ python3 - "$dest" "$id" "$base" "$suite" "$demo" "[${results%,}]" <<'PY'
 import json,sys,re,os
 dest,pid,base,suite,demo,results=sys.argv[1:7]
 notes=open(os.path.join(dest,'notes.md')).read() if os.path.exists(os.path.join(dest,'notes.md')) else ''
+def needs(n):
+    # the section of the author's notes that says what the change needs in order to show
+    out=[];take=False
+    for line in n.splitlines():
+        if line.startswith('#'):
+            take=bool(re.search(r'need|manifest|trigger',line,re.I))
+            continue
+        if take: out.append(line)
+    t=' '.join(' '.join(out).split())
+    return t or 'see notes.md'
 meta={"property":pid,"origin":"independent sub-agent given only the property text and a scratch worktree",
- "needs_to_manifest":"see notes.md",
+ "needs_to_manifest":needs(notes),
  "confirmed":{"demo_on_unchanged_tree":base,"suite_with_change":suite,"demo_with_change":demo},
  "checks_run":json.loads(results)}
 json.dump(meta,open(os.path.join(dest,'meta.json'),'w'),indent=1)
